@@ -15,6 +15,7 @@ import ast
 from ..index import AnchorMissing, Unrecognised
 from ..astutil import u, body_walk, local_env, func_calls, walk_local, single_return_expr, inline_locals
 from .. import sym
+from ..cfg import CFG
 
 EXPLANATION = ("Static analysis of the encoded-array classes: every method that derives a result from self is reduced to the constructor call it returns and "
                "checked to pass the operand's encoding; the ufunc / item-assignment paths are checked to encode all other operands with the target "
@@ -112,9 +113,10 @@ def r2_operands_encoded(ctx):
     for n in body_walk(af.node):
         if isinstance(n, ast.If) and isinstance(n.test, ast.Compare) and u(n.test.left) == "func":
             key = u(n.test.comparators[0])
-            rr = [x for x in n.body if isinstance(x, ast.Return)]
+            rr = [x for b in n.body for x in walk_local(b) if isinstance(x, ast.Return)]
             if rr:
-                g_forms[key] = sym.canon(rr[-1].value)
+                forms = {sym.canon(x.value) for x in rr}
+                g_forms[key] = forms.pop() if len(forms) == 1 else " | ".join(sorted(forms))
     want = {"np.concatenate": "self.__class__(func([e.data for e in args[0]]), self.encoding)",
             "np.where": "self.__class__(func(args[0], args[1].data, args[2].data), encoding=self.encoding)",
             "np.append": "self.__class__(func(args[0].data, args[1].data, *args[2:], **kwargs), encoding=self.encoding)",
@@ -155,6 +157,35 @@ def r4_text_helpers(ctx):
     ok = "mask[-1] = True" in txt and "sep_idx = np.flatnonzero(mask)" in txt and "lens = np.diff(unsafe_extend_left(sep_idx))" in txt and "lens[0] = sep_idx[0] + 1" in txt and \
         "return ragged_array[:, :-1]" in txt
     ctx.ob(sp.where, "split: rows end at each separator (and at the end); the separator itself is dropped from every row", ok, "", key="C07-R4|split")
+    seq, sep = sp.params[0], sp.params[1]
+    defs = [n for n in body_walk(sp.node) if (isinstance(n, ast.Assign) and u(n.targets[0]) == "mask" and not isinstance(n.targets[0], ast.Subscript)) or
+            (isinstance(n, ast.AugAssign) and u(n.target) == "mask")]
+    ctx.floor("definitions of the separator mask in split", len(defs), 2)
+    env = local_env(sp.node)
+    for d in defs:
+        v = d.value
+        raw = any(isinstance(x, ast.Call) and isinstance(x.func, ast.Attribute) and x.func.attr == "raw" for x in ast.walk(v)) or any(isinstance(x, ast.Call) and u(x.func) == "ord" for x in ast.walk(v))
+        if raw:
+            okd = False
+        elif isinstance(v, ast.Compare) and len(v.ops) == 1 and isinstance(v.ops[0], ast.Eq) and sym.canon(v.left, env) == sym.canon(sym.parse_expr(f"unsafe_extend_right({seq})")):
+            okd = True
+        else:
+            raise Unrecognised(f"{sp.where}: separator mask is built in an unknown form: {u(d)}")
+        ctx.ob(sp.where, "split compares the (encoded) sequence with the separator through the encoded `==`, which encodes the separator with the sequence's own encoding; "
+               "comparing raw codes with character ordinals finds nothing in an alphabet-encoded sequence", okd, u(d), key="C07-R4|split-encoded-compare")
+    sa = ix.func("bionumpy.string_array", "string_array")
+    g = CFG(sa.node)
+    p0 = sa.params[0]
+    dec = [n for n in g.nodes if n.kind == "test" and "BaseEncoding" in u(n.ast) and ".encoding" in u(n.ast)]
+    pads = [n for n in g.nodes if n.kind == "stmt" and any(isinstance(c, ast.Call) and (u(c.func).endswith("as_padded_matrix") or "padded" in u(c.func)) for c in walk_local(n.ast))]
+    ctx.floor("padding sites in string_array", len(pads), 1)
+    ctx.need(len(dec) >= 1, "string_array: decode-to-text guard not found")
+    for pd in pads:
+        ok = any(g.dominates(d, pd) for d in dec)
+        ctx.ob(sa.where, "ragged text is decoded to characters BEFORE it is padded to a matrix: padding bytes are NUL characters, not code 0 of the alphabet "
+               "(which would decode to its first letter)", ok, u(pd.ast), key="C07-R4|string-array-decode-first")
+    decs = [n for n in g.nodes if n.kind == "stmt" and isinstance(n.ast, ast.Assign) and sym.canon(n.ast.value) == f"{p0}.encoding.decode({p0})"]
+    ctx.ob(sa.where, "non-base encoded text is decoded with its own encoding", len(decs) >= 1 and all(u(n.ast.targets[0]) == p0 for n in decs), "", key="C07-R4|string-array-decode")
 
 
 def r5_stale_shape(ctx):
@@ -184,10 +215,13 @@ def r5_stale_shape(ctx):
     ctx.ob("bionumpy", f"{n} functions scanned: no ragged shape is captured before a ravel() of the same object and used after it", True, "")
 
 
+from .c20 import r6_memoised_results as _memoised_results      # a memoised encoder would hand the same writable array to every caller
+
 RULES = [
     ("C07-R1", r1_encoding_preserved),
     ("C07-R2", r2_operands_encoded),
     ("C07-R3", r3_no_effect),
     ("C07-R4", r4_text_helpers),
     ("C07-R5", r5_stale_shape),
+    ("C07-R6", _memoised_results),
 ]
